@@ -154,6 +154,22 @@ func (s *c15State) op(rng *rand.Rand, names []string, allowDefine bool) bool {
 		if s.hasUnit != nil && !s.hasUnit[name] && rng.Intn(2) == 0 {
 			way = 3
 		}
+		if way < 3 && rng.Intn(4) == 0 {
+			// an edit that does not compile comes first (the hot-reload flow: broken save, then the corrected one): the
+			// name is retired, the broken definition is offered and refused, and the failure must not outlive the
+			// invalidation that follows
+			if way == 2 {
+				s.j.ClearCache()
+			} else {
+				s.j.InvalidateCache(name)
+			}
+			broken := &ast.Route{Method: ast.Get, Path: d.route().Path, Body: []ast.Statement{&ast.ReturnStatement{Value: &ast.VariableExpr{Name: "nowhere_defined"}}}}
+			_, berr := s.j.CompileRoute(name, broken)
+			s.log("define %s := <definition that does not compile> ; CompileRoute err=%v", name, berr)
+			if berr != nil {
+				s.w.Count("broken_definitions_refused_before_a_redefinition", 1)
+			}
+		}
 		switch way {
 		case 0, 1:
 			s.j.InvalidateCache(name)
